@@ -129,16 +129,19 @@ def run_calls(proxy: Any, program: dict[str, Any], *, collect_log: list[Any] | N
                             n += 1
                         if not ended:
                             end = call.get("end", "close")
-                            if end == "cancel":
-                                sess.cancel()
-                                sink.clear()
-                                ev.append(["cancelled"])
-                            elif end == "close":
-                                sess.close()
-                                sink.clear()
-                                ev.append(["closed"])
-                            else:
+                            if end == "abandon":
                                 ev.append(["abandoned"])
+                            for op in [] if end == "abandon" else end.split("+"):  # e.g. "cancel+close": cancel(), then close()
+                                if op == "cancel":
+                                    sess.cancel()
+                                    sink.clear()
+                                    ev.append(["cancelled"])
+                                elif op == "close":
+                                    sess.close()
+                                    sink.clear()
+                                    ev.append(["closed"])
+                                else:
+                                    raise ValueError(f"unknown end op {op!r}")
                 except RpcError as e:
                     flush()
                     ev.append(["error", e.error_type, e.error_message])
@@ -158,7 +161,12 @@ def run_calls(proxy: Any, program: dict[str, Any], *, collect_log: list[Any] | N
                 failed = False
                 try:
                     for inp in call.get("inputs", []):
-                        b = inp if isinstance(inp, pa.RecordBatch) else pa.RecordBatch.from_pydict(inp, schema=in_schema)
+                        if isinstance(inp, dict) and "__cols__" in inp:
+                            # an input whose columns differ from the declared input schema: {"__cols__": {name: arrow type name}, ...}
+                            cols = inp["__cols__"]
+                            b = pa.RecordBatch.from_pydict({k: v for k, v in inp.items() if k != "__cols__"}, schema=pa.schema([pa.field(k, getattr(pa, t)()) for k, t in cols.items()]))
+                        else:
+                            b = inp if isinstance(inp, pa.RecordBatch) else pa.RecordBatch.from_pydict(inp, schema=in_schema)
                         ab = sess.exchange(AnnotatedBatch(batch=b))
                         flush()
                         ev.append(norm_batch(ab))
@@ -168,14 +176,15 @@ def run_calls(proxy: Any, program: dict[str, Any], *, collect_log: list[Any] | N
                     ev.append(["error", e.error_type, e.error_message])
                     failed = True
                 if not failed:
-                    if call.get("end", "close") == "cancel":
-                        sess.cancel()
-                        sink.clear()
-                        ev.append(["cancelled"])
-                    else:
-                        sess.close()
-                        sink.clear()
-                        ev.append(["closed"])
+                    for op in call.get("end", "close").split("+"):
+                        if op == "cancel":
+                            sess.cancel()
+                            sink.clear()
+                            ev.append(["cancelled"])
+                        else:
+                            sess.close()
+                            sink.clear()
+                            ev.append(["closed"])
         except OnLogRaise:
             flush()
             ev.append(["on_log_raised"])
